@@ -208,8 +208,12 @@ class LocalDirectoryContext(Context):
                         lines.append(line)
                 if not found:
                     lines.append(f'{name} {annotation}\n')
-            with open(path, 'w') as fh:
+            # NOTE: Write a new file and move it into place so that a reader
+            #       or a crash never sees a partially written file
+            tmp_path = path.with_suffix('.tmp')
+            with open(tmp_path, 'w') as fh:
                 fh.writelines(lines)
+            os.replace(tmp_path, path)
 
     def retrieve_annotation(self, name: str) -> str:
         path = self._annotations_path
